@@ -146,6 +146,22 @@ def scan_structure(prog, reg, cid, props_table):
             if isinstance(node, ast.Expr) and isinstance(node.value, ast.Call) and isinstance(node.value.func, ast.Name) \
                     and node.value.func.id in ('setattr', 'delattr'):
                 viol.append(f'{m}.py line {node.lineno}: module-level {node.value.func.id}(...)')
+    # (d) a class-body binding built from a method of the same class (`alias = wrap(method)`) calls that very function:
+    #     it does not dispatch to a subclass override, so objects of the overriding class get a second, uncontracted
+    #     entry point that skips the override.
+    for cname, ci in prog.classes.items():
+        for node in ci.node.body:
+            if not isinstance(node, (ast.Assign, ast.AnnAssign)) or getattr(node, 'value', None) is None:
+                continue
+            checked += 1
+            for x in ast.walk(node.value):
+                if isinstance(x, ast.Name) and x.id in ci.methods:
+                    for d in prog.classes:
+                        if d != cname and prog.is_subclass(d, cname) and x.id in prog.classes[d].methods:
+                            tg = ', '.join(ast.unparse(t) for t in (node.targets if isinstance(node, ast.Assign)
+                                                                    else [node.target]))
+                            viol.append(f'{ci.module}.{cname}: class-body binding `{tg}` captures {cname}.{x.id} statically; '
+                                        f'{d} overrides {x.id}, so {d}().{tg}(...) bypasses the override')
     known = {'property', 'staticmethod', 'classmethod', 'deprecated'}
     for key in sorted(keys):
         try:
